@@ -73,7 +73,8 @@ def describe(t):
     if t[0] == 1:
         return {"kind": "readDialData", "numBytes": t[1], "nmsgs": t[2], "msgs(kind L D)*, result, consumed": t[3:203]}
     if t[0] == 2:
-        return {"kind": "server session", "limits(RPM,PerPeer,DialData,MaxConc)": t[1:5], "raw": t[5:305]}
+        return {"kind": "server session", "limits(RPM,PerPeer,DialData,MaxConc)": t[1:5],
+                "raw(stimulus 1 new request|5 stream opened|6 late request|2 data|3 close|4 clock; nev events; npeers inProgress...)": t[5:305]}
     return {"raw": t[:100]}
 
 
@@ -106,7 +107,9 @@ def nontrivial(line):
             k = t[i]
             if k == b"1":
                 i += 8 + 3 * int(t[i + 7])
-            elif k == b"2":
+            elif k == b"6":
+                i += 6 + 3 * int(t[i + 5])
+            elif k == b"2" or k == b"5":
                 i += 5
             elif k == b"3":
                 i += 2
@@ -118,6 +121,7 @@ def nontrivial(line):
                 if e in (b"11", b"12"):
                     return True
                 i += {b"10": 4, b"11": 4, b"12": 3, b"13": 2}[e]
+            i += 1 + int(t[i])
     except (IndexError, KeyError, ValueError):
         return True
     return False
@@ -176,7 +180,10 @@ if __name__ == "__main__":
              "kind 2 (serveDialRequest): seeded sessions in a synctest bubble on scripted streams with a real swarm as dialer whose transport records "
              "every Dial: 1..3 peers, request lists of 0..55 entries (public/private/no-transport/gated/DNS/unspecified/malformed, own and foreign IPs, "
              "IPv4-in-IPv6), wrong message types, garbage, EOF, dial-data plans (correct, short, tiny, oversized, broken, one byte short), client "
-             "close, stalls past the stream deadline, up to 4 overlapping requests, idle pauses across the one-minute window. Every response, "
+             "close, stalls past the stream deadline, streams that are opened and send their request later or never (in flight after Accept "
+             "without owing dial data), up to 6 overlapping requests, a third of the sessions with DialDataRPM 0..2 x MaxConcurrent 1..3 and requests that "
+             "mostly need dial data, idle pauses across the one-minute window; after every stimulus the limiter's inProgressReqs entry of every peer is "
+             "compared with the model (conformance only; the monitor counts in-flight requests from the session events alone). Every response, "
              "DialDataRequest, reset and dial is compared with the model (conform_case) and judged by the property monitor (monitor_case). "
              "Non-trivial: a limiter refusal (kind 0); more than one message consumed or an error (kind 1); a dial or a dial-data request (kind 2).",
         describe=describe, key=key, what=what, crosscheck=150,
